@@ -326,7 +326,7 @@ impl Clone for TransitionCycle {
 //@closure filter_map#0
     -> (o: Option<VehicleTypeIdx>)
         requires schedule_with_improved_depots.next_period_transitions@.contains_key(*p0)
-        ensures o == idr_keep(schedule_with_improved_depots, *p0)
+        ensures o == idr_keep(schedule_with_improved_depots, *p0) /* @obl C11.improve_depot_and_recompute_transitions.is_the_documented_composition */
 //@first
         let ghost changed = changed_vehicles@;
 //@before "let schedule_with_improved_depots"
@@ -335,7 +335,7 @@ impl Clone for TransitionCycle {
             assert(vts.len() == changed.len());
             assert forall|i: int| 0 <= i < changed.len() implies #[trigger] vts[i] == schedule.type_of(changed[i]) by {}
         }
-//@before "changed_vehicle_types_with_positive_violation.sort"
+//@after "let mut changed_vehicle_types_with_positive_violation"
         let ghost listed = changed_vehicle_types_with_positive_violation@;
         proof {
             // the filter_map kept exactly the changed types with a positive violation
@@ -345,22 +345,12 @@ impl Clone for TransitionCycle {
             assert forall|vt: VehicleTypeIdx| #[trigger] listed.contains(vt) <==> idr_recomputed_type(schedule, changed, vt) by {
                 lemma_positive_types(schedule, changed, vts, outs, vt);
             }
-        }
-//@before "changed_vehicle_types_with_positive_violation.dedup"
-        let ghost sorted = changed_vehicle_types_with_positive_violation@;
-        proof {
-            sorted.to_multiset_ensures();
-            listed.to_multiset_ensures();
-            assert forall|vt: VehicleTypeIdx| #[trigger] sorted.contains(vt) <==> listed.contains(vt) by {
-                assert(sorted.to_multiset().count(vt) == listed.to_multiset().count(vt));
-                assert(sorted.contains(vt) <==> sorted.to_multiset().count(vt) > 0);
-                assert(listed.contains(vt) <==> listed.to_multiset().count(vt) > 0);
+            // "make vehicle types unique": whatever sorted rearrangement `sort` produces, `dedup` turns it into THE type list
+            // (stated for every such list, so that no hint is anchored at the sort / dedup statements)
+            assert forall|q: Seq<VehicleTypeIdx>| q.to_multiset() == listed.to_multiset() && sw_sorted(q)
+                implies idr_type_list(schedule, changed, #[trigger] sw_dedup(q)) by {
+                lemma_sorted_dedup_is_type_list(schedule, changed, listed, q);
             }
-        }
-//@before "schedule_with_improved_depots .recompute_transitions_for"
-        proof {
-            lemma_dedup_sorted(sorted);
-            assert(idr_type_list(schedule, changed, changed_vehicle_types_with_positive_violation@));
         }
 //@end
 
@@ -387,8 +377,6 @@ impl Clone for TransitionCycle {
         proof { axiom_req_add_trip_for_hitch_hiking(self, schedule); lemma_no_panic_add_trip_for_hitch_hiking(self, schedule); }
 //@before "match conflict"
         proof {
-            assert(!self.full(schedule));
-            assert(self.added(schedule) == Ok::<(Schedule, Option<Path>), String>((sched, conflict)));
             // (`vec![self.vehicle]` is anonymous: every one-element list of the vehicle is the list [vehicle])
             assert forall|q: Seq<VehicleIdx>| #[trigger] q.len() == 1 && q[0] == self.vehicle implies q == seq![self.vehicle] by {
                 assert(q =~= seq![self.vehicle]);
@@ -413,22 +401,23 @@ impl Clone for TransitionCycle {
 //@sig
     ensures
         self.result(schedule, r), // @obl C11.path_exchange.is_the_documented_composition
-//@closure-params retain#0
+//@closure-params? retain#0
     &VehicleIdx
-//@closure retain#0
+//@closure? retain#0
     -> (b: bool) ensures b == second_schedule.vehicles@.contains_key(*p0)
 //@first
         proof { axiom_req_path_exchange(self, schedule); lemma_no_panic_path_exchange(self, schedule); }
-//@before "vehicle_of_changed_tours.retain"
+//@after "let second_schedule"
         let ghost touched = vehicle_of_changed_tours@;
-        proof { assert(touched =~= self.touched(schedule)); }
-//@before "vehicle_of_changed_tours.dedup"
-        let ghost kept = vehicle_of_changed_tours@;
         proof {
-            let mask = choose|mask: Seq<bool>| #![trigger mask_filter(touched, mask)] mask.len() == touched.len()
+            assert(touched =~= self.touched(schedule));
+            // `retain(|&v| second_schedule.is_vehicle(v))` keeps the real vehicles of the second schedule (stated for every
+            // mask, so that no hint is anchored at the retain / dedup statements)
+            assert forall|mask: Seq<bool>| mask.len() == touched.len()
                 && (forall|i: int| 0 <= i < mask.len() ==> #[trigger] mask[i] == second_schedule.vehicles@.contains_key(touched[i]))
-                && kept == mask_filter(touched, mask);
-            lemma_mask_is_keep(touched, mask, second_schedule);
+                implies #[trigger] mask_filter(touched, mask) == sw_keep(touched, second_schedule) by {
+                lemma_mask_is_keep(touched, mask, second_schedule);
+            }
         }
 //@end
 
